@@ -32,7 +32,11 @@ RULE = ("classes: (a) the mutate suite's collection-heavy classes with its op hi
         "(copy/deepcopy/pickle in any order) whose every link must succeed and whose result must == x (model: composition of "
         "copyI/deepcopyI/pickleI); an oracle-only stream of classes with Constant attributes (not in the model's declaration "
         "language): same measurements on the real code, assignment to the constant on fresh instance and copies; a copy "
-        "operation that raises anything but a can't-pickle error is a failure; two fixed cases: __validate__ hook after unpickling, "
+        "operation that raises anything but a can't-pickle error is a failure; fields with defaults (0, 0.0, '', False, [], {}, and truthy ones) on 30% of the "
+        "spelling classes plus a directed stream (plain / immutable / _enable_undefined_value / _ignore_none): default left "
+        "to apply vs the same value passed explicitly vs assigned later vs explicit None; a defaulted field absent from "
+        "__dict__ is keyed by how it came to be absent (@explicit-none, @post-history known; @constructor is not); wrapper "
+        "calls on an unset field are not executed (they would edit the class-level default object); two fixed cases: __validate__ hook after unpickling, "
         "Decimals with different exponents; non-trivial = >=2 instances; distinct by sha256 of the case line")
 ASSUMPTIONS = [
     "_enable_undefined_value is modelled for the top-level class only (Inst.nones / Inst.undef, getA reads Undefined, setattrUndef); nested instances carry no _none_fields in the value model; the constructor model (C01/C02) does not know the flag, so start states of such classes are taken from the real code",
@@ -55,7 +59,7 @@ def pre_build():
 
 
 def cases(rng, tier):
-    return P.gen_cases(rng, tier, 260 if tier == "quick" else 2800)
+    return P.gen_cases(rng, tier, 260 if tier == "quick" else 2100)
 
 
 def search_cases(rng, tier):
